@@ -111,5 +111,9 @@ SealSpec(st, action, txs, rewardid) ==
          tips |-> IF action.some THEN Zero ELSE st.tips,
          feeMult |-> IF action.some THEN NextFeeMult(st.feeMult, action.delta, Tip901(net, h)) ELSE st.feeMult,
          defined |-> WithdrawDefined(w2.pools, txs, w2.cm),
+         \* per denomination, the value of the second coins that legacy deposits keep (zero function outside the legacy window)
+         legacyKept |-> [d \in DenomsOf(st) \cup {"MEL", "SYM", "ERG"} \cup {tx.outs[2].denom : tx \in {t \in RangeS(txs) : IsDeposit(t, w1.cm)}} |->
+                          IF LegacyNet(net) /\ h < LEGACY_DEPOSIT
+                          THEN SumBig(SelectSeq(txs, LAMBDA tx : IsDeposit(tx, w1.cm) /\ tx.outs[2].denom = d), LAMBDA tx : tx.outs[2].val) ELSE Zero],
          minted |-> w2.minted, pegMel |-> pg.melIn, pegSym |-> pg.symIn, subsidySym |-> t9.symIn ]
 =============================================================================
